@@ -99,6 +99,9 @@ type Expr struct {
 	Kind  string     `json:"kind,omitempty"`  // subq
 	Q     *Query     `json:"q,omitempty"`     // subq
 	Raw   string     `json:"raw,omitempty"`   // raw: SQL template with %s per argument (opaque to the specification)
+	// P marks a literal as a statement parameter: rendered as `?` when Renderer.Params is set (the
+	// specification always sees the literal value: the meaning of the statement with the value inlined).
+	P bool `json:"-"`
 }
 
 // Query is a select or a set operation.
@@ -124,6 +127,8 @@ type Query struct {
 	Hint string `json:"hint,omitempty"`
 	// OrdAlias renders ORDER BY with the select aliases (x1, x2..) instead of ordinals; same meaning.
 	OrdAlias bool `json:"ordalias,omitempty"`
+	// LimitParam renders LIMIT (and OFFSET) as `?` parameters when Renderer.Params is set.
+	LimitParam bool `json:"-"`
 }
 
 type Ord struct {
